@@ -205,7 +205,7 @@ def main(ctx):
     ctx.assumptions = ["reference density = explicit product of template densities with theta(g) from the raw shape functions",
                        "integrals by composite Gauss-Legendre cubature of the implementation's pdf, computed with k and 2k "
                        "nodes per panel; disagreement > 1e-6 is counted as oracle-inconclusive, never as a violation",
-                       "model.cdf in 3-D costs ~5 min per point: three points in the thorough tier only; the implementation's 3-D marginal_cdf (hours per point) is not executed, 3-D marginal_pdf and the Monte-Carlo marginal_icdf are"]
+                       "model.cdf in 3-D costs ~5 min per point: three points in the thorough tier only; the implementation's 3-D marginal_cdf (~4-10 min per point) is executed in the thorough tier only (every conditional dimension of the structures whose second variable is conditional); 3-D marginal_pdf and the Monte-Carlo marginal_icdf also in quick"]
     q = ctx.quick
     cases = []
     for f0, f1 in itertools.product(POS, POS):
@@ -228,9 +228,11 @@ def main(ctx):
         for si, cond in enumerate(zoo.structures(3)):
             c = {"fams": fams, "cond_on": cond, "assign": "A", "run_seed": ctx.seed}
             if not q and ti == 0:
-                c["marginal_dims"] = [d for d in range(3) if cond[d] is not None][:1]
+                c["marginal_dims"] = [d for d in range(3) if cond[d] is not None]
                 c["marginal_qs"] = [0.5]
-                c["no_marginal_cdf"] = True
+                # the implementation's 3-D marginal_cdf (nested nquad over two infinite ranges) takes ~4-10 min per point:
+                # executed for every conditional dimension of the structures whose second variable is conditional
+                c["no_marginal_cdf"] = cond[1] is None
                 c["cdf_points"] = [[0.5, 0.6, 0.4]] if si in (1, 3, 5) else []
             if q and ti > 0:
                 c["total"] = si % 2 == 0
